@@ -5,6 +5,7 @@ From Coq Require Import ZArith Reals List Bool String.
 From Coquelicot Require Import Coquelicot.
 From VQ Require Import Num Model.Vec Model.Core Model.Grad Model.Scalar Proofs.GradProofs Glue.GradGlue Glue.Pin_p_grad.
 From VQ Require Import Proofs.StretchRotation.
+From VQ Require Import Glue.SteGlue.
 Import ListNotations.
 Open Scope R_scope.
 
@@ -176,3 +177,68 @@ Theorem C07_rotation_is_an_isometry :
        sqnorm R_ops (rot_apply R_ops u qh w 1 e) = sqnorm R_ops e.
 Proof. exact (@rotation_is_isometry). Qed.
 Print Assumptions C07_rotation_is_an_isometry.
+
+Theorem C07_src_vq_ste_value :
+  forall x q : R, k_vq_ste.k_vq_ste R_ops (fun v : R => v) x q = q.
+Proof. exact (@SteGlue.glue_vq_ste_value). Qed.
+Print Assumptions C07_src_vq_ste_value.
+
+Theorem C07_src_vq_ste_identity_jacobian :
+  forall x q d : R, k_vq_ste.k_vq_ste R_ops (fun _ : R => d) x q = x + d.
+Proof. exact (@SteGlue.glue_vq_ste_slope). Qed.
+Print Assumptions C07_src_vq_ste_identity_jacobian.
+
+Theorem C07_src_vq_sync_update_value :
+  forall q v : R, k_vq_sync_update.k_vq_sync_update R_ops (fun t : R => t) q v = q.
+Proof. exact (@SteGlue.glue_vq_sync_value). Qed.
+Print Assumptions C07_src_vq_sync_update_value.
+
+Theorem C07_src_vq_sync_update_slope :
+  forall q v c : R, k_vq_sync_update.k_vq_sync_update R_ops (fun _ : R => c) q v = (1 + v) * q - v * c.
+Proof. exact (@SteGlue.glue_vq_sync_slope). Qed.
+Print Assumptions C07_src_vq_sync_update_slope.
+
+Theorem C07_src_fsq_round_ste_value :
+  forall (rnd : R -> R) (z : R), k_fsq_round_ste.k_fsq_round_ste R_ops rnd (fun v : R => v) z = rnd z.
+Proof. exact (@SteGlue.glue_fsq_round_ste_value). Qed.
+Print Assumptions C07_src_fsq_round_ste_value.
+
+Theorem C07_src_fsq_round_ste_identity :
+  forall (rnd : R -> R) (z d : R), k_fsq_round_ste.k_fsq_round_ste R_ops rnd (fun _ : R => d) z = z + d.
+Proof. exact (@SteGlue.glue_fsq_round_ste_slope). Qed.
+Print Assumptions C07_src_fsq_round_ste_identity.
+
+Theorem C07_src_simvq_ste_value :
+  forall x q : R, k_simvq_ste.k_simvq_ste R_ops (fun v : R => v) x q = q.
+Proof. exact (@SteGlue.glue_simvq_ste_value). Qed.
+Print Assumptions C07_src_simvq_ste_value.
+
+Theorem C07_src_simvq_ste_identity :
+  forall x q d : R, k_simvq_ste.k_simvq_ste R_ops (fun _ : R => d) x q = x + d.
+Proof. exact (@SteGlue.glue_simvq_ste_slope). Qed.
+Print Assumptions C07_src_simvq_ste_identity.
+
+Theorem C07_src_latent_ste_value :
+  forall x q : R, k_lq_ste.k_lq_ste R_ops (fun v : R => v) x q = q.
+Proof. exact (@SteGlue.glue_lq_ste_value). Qed.
+Print Assumptions C07_src_latent_ste_value.
+
+Theorem C07_src_latent_ste_identity :
+  forall x q d : R, k_lq_ste.k_lq_ste R_ops (fun _ : R => d) x q = x + d.
+Proof. exact (@SteGlue.glue_lq_ste_slope). Qed.
+Print Assumptions C07_src_latent_ste_identity.
+
+Theorem C07_src_lfq_ste_identity :
+  forall a q d : R, k_lfq_ste.k_lfq_ste R_ops (fun _ : R => d) a q = a + d.
+Proof. exact (@SteGlue.glue_lfq_ste_slope). Qed.
+Print Assumptions C07_src_lfq_ste_identity.
+
+Theorem C07_src_gumbel_straight_through_value :
+  forall h p : R, k_gumbel_st.k_gumbel_st R_ops (fun v : R => v) h p = h.
+Proof. exact (@SteGlue.glue_gumbel_st_value). Qed.
+Print Assumptions C07_src_gumbel_straight_through_value.
+
+Theorem C07_src_gumbel_straight_through_slope :
+  forall h p c : R, k_gumbel_st.k_gumbel_st R_ops (fun _ : R => c) h p = p + (h - c).
+Proof. exact (@SteGlue.glue_gumbel_st_slope). Qed.
+Print Assumptions C07_src_gumbel_straight_through_slope.
